@@ -93,6 +93,8 @@ class Run:
         self.by_backend = {"z3": 0, "cvc5": 0, "lean": 0, "ast": 0}
         self.samples = []
         self.expected_ids = None
+        self.second_asked = self.second_confirmed = 0
+        self.second_time = 0.0
         os.makedirs(os.path.join(ROOT, "evidence"), exist_ok=True)
         os.makedirs(os.path.join(ROOT, "replays"), exist_ok=True)
 
@@ -102,12 +104,23 @@ class Run:
 
     def discharge(self, ob, replay=None):
         """ob: dict(id, hyps, goal, kind, meta).  replay: callable(model dict, z3model) -> dict(confirmed, detail, call) or None"""
-        r = solver.check(ob["hyps"], ob["goal"], timeout_s=self.timeout())
+        so = self.tier == "thorough" and self.second_asked < 400 and self.second_time < 120
+        if so: self.second_asked += 1
+        r = solver.check(ob["hyps"], ob["goal"], timeout_s=self.timeout(), second_opinion=so)
+        self.second_time += r.get("second_time_s", 0.0)
+        if r.get("second") == "unsat": self.second_confirmed += 1
+        elif r.get("second") == "sat": self.fault("solver disagreement on %s: z3 unsat, cvc5 sat" % ob["id"])
         self.solver_time += r["time_s"]
         rec = {"id": ob["id"], "kind": ob.get("kind", "post"), "verdict": r["verdict"], "backend": r["backend"], "time_s": round(r["time_s"], 4)}
         if r["verdict"] == solver.DISCHARGED:
             self.by_backend[r["backend"]] += 1
         elif r["verdict"] == solver.REFUTED:
+            mg = ob.get("meta", {}).get("margin_goal")
+            if mg is not None:
+                # robust counter-model: ask again for an input that violates the clause by a margin, so that the float replay is not lost in rounding
+                r2 = solver.check(ob["hyps"], mg, timeout_s=min(5, self.timeout()), use_cvc5=False)
+                if r2["verdict"] == solver.REFUTED:
+                    r = dict(r2, time_s=r["time_s"] + r2["time_s"]); rec["robust_model"] = True
             rec["model"] = {k: (str(v)) for k, v in (r["model"] or {}).items()}
             rep = None
             replay = replay or ob.get("meta", {}).get("replay")
@@ -225,6 +238,7 @@ class Run:
             "known_findings": [k["key"] for k in self.known_hits],
             "canaries_refuted": self.canaries, "covers_reached": self.covers,
             "cross_check": self.crosscheck,
+            "second_solver": {"asked_cvc5": self.second_asked, "confirmed_unsat": self.second_confirmed, "note": "thorough tier: obligations z3 discharged are re-checked by cvc5 1.0.3 on the SMT-LIB text (3 s each, at most 400 / 120 s per run); 'sat' would be a checker fault, timeouts are no opinion"},
             "dropped_by_extraction": DROPPED,
             "checker_cmd": self.cmd,
             "trusted_base": sorted(self.trusted | {"pyvc VC generator (mitigated by CPython cross-check, canaries, covers)", "z3 %s" % z3.get_version_string()}),
